@@ -290,6 +290,22 @@ def _run_angles(case, ck):
             ck.metric("rigid", e)
             ck.true("rotate-distances", e <= 1e-12,
                     "mutual distances changed by %.2e" % e)
+            # the same points in other length units (powers of two: the
+            # scaled coordinates are exact)
+            for ex in (-30, -60, 40):
+                sc = 2.0 ** ex
+                Qs = np.asarray(rotate_points(P * sc, al, be, ga))
+                ck.trans += 1
+                e = np.abs(Qs - (P * sc) @ ref.T).max() / (1e3 * sc)
+                ck.metric("rotate_points", e)
+                ck.true("rotate-points", Qs.shape == P.shape and e <= 1e-13,
+                        "rotate_points of points scaled by 2^%d differs "
+                        "from R p by %.2e of the largest coordinate" %
+                        (ex, e))
+                e = np.abs(Qs[:4, :] / sc - Q[:4, :]).max()
+                ck.true("rotate-points-units", e <= 1e-12,
+                        "rotating points given in units 2^%d times smaller "
+                        "does not give the same points (%.2e)" % (ex, e))
             q1 = np.asarray(rotate_points(P[3], al, be, ga))
             ck.trans += 1
             ck.true("rotate-single", q1.shape == (3,) and
